@@ -236,11 +236,14 @@ namespace nmtools::utl
         void push_back(const T& t)
         {
             if (buffer_size_ < (size_ + 1)) {
+                // t may refer to an element of this vector (v.push_back(v[0])): take its value before the buffer is replaced
+                T value = t;
                 resize(size_ + 1);
+                buffer_[size_-1] = value;
             } else {
                 size_ = size_ + 1;
+                buffer_[size_-1] = t;
             }
-            buffer_[size_-1] = t;
         }
 
         // TODO: support emplace_back
